@@ -14,24 +14,48 @@
 (*                  (recover() = nil before go1.21) | "exit" ends the      *)
 (*                  goroutine (runtime.Goexit: deferred calls run,         *)
 (*                  recover() = nil, nothing is returned to the caller)    *)
+(*                Before its outcome (after its statements) a step may     *)
+(*                end the transaction on the handle it was given:          *)
+(*                `fin` = "none" | "commit" | "rollback".                  *)
+(*   cfg.cancel   the context the db handle is bound to is cancelled:      *)
+(*                -1 never | 0 before the call | k > 0 inside step k after *)
+(*                its statements (and its own `fin`).  database/sql then   *)
+(*                rolls an open transaction back by itself.                *)
 (*   cfg.begin / commit / rollback   does the database accept the request  *)
+(*                                                                         *)
+(* A transaction ended behind Transact's back (by a step or by the         *)
+(* cancelled context) is "dead": database/sql answers every later request  *)
+(* on it with ErrTxDone / the context's error and nothing more reaches the *)
+(* database: no statement, no second finish.  The contract stays the same  *)
+(* exact one.  DECISION for the dead case, from "the caller gets nil only  *)
+(* if the commit itself succeeded": that is the commit Transact issues for *)
+(* the transaction it started.  On a dead transaction that commit cannot   *)
+(* succeed, so the caller must get a non-nil error (which one: left open)  *)
+(* -- also when the step that ended the transaction committed it and       *)
+(* returned nil, and a fortiori when it or the context rolled it back (the *)
+(* steps' work is lost).  A failing step still yields its own error.       *)
 (*                                                                         *)
 (* One action per observable event; an action is described by the record   *)
 (* `a` that the Go harness logs for it (field `ev` names the action):      *)
 (*   begin{ok} step{i} exec{i,tx} end{i,out} commit{ok} rollback{ok}       *)
 (*   ret{r} gone{}                                                         *)
-(* begin/exec/commit/rollback are recorded by the database driver, step/   *)
-(* end by the step closures, ret/gone by the caller.                       *)
+(* begin/exec/commit/rollback are recorded by the database driver (who     *)
+(* asked for a commit/rollback - Transact, a step, database/sql on         *)
+(* cancellation - follows from where the call stands), step/end by the     *)
+(* step closures, ret/gone by the caller.                                  *)
 (*                                                                         *)
 (* FixNilRecover = TRUE is the design: the deferred handler knows whether  *)
 (* the step loop ran to completion.  FALSE is the rule the pinned code     *)
 (* implements: "a step failed" is inferred from err # nil or recover() #   *)
 (* nil, so a step ending with pnil / exit goes unnoticed and the partial   *)
 (* transaction is committed.                                               *)
+(* TxDoneIsError = TRUE is the design; FALSE names the deviation "a commit *)
+(* answered with ErrTxDone counts as success" (caller gets nil although    *)
+(* Transact committed nothing).                                            *)
 (***************************************************************************)
 EXTENDS Integers, Sequences, FiniteSets, TLC
 
-CONSTANT FixNilRecover
+CONSTANTS FixNilRecover, TxDoneIsError
 
 VARIABLES
   cfg,    \* the environment's choices (constant during a call)
@@ -42,7 +66,8 @@ VARIABLES
   begun,  \* history: outcomes of the begin requests
   ran,    \* history: indices of the steps entered
   execs,  \* history: step index of every statement that reached the database
-  fin,    \* history: finish requests [op, ok] that reached the database
+  fin,    \* history: finish requests [op, ok, by, at] that reached the database
+          \*   by = "transact" | "step" | "ctx";  at = step during which (0: by Transact)
   ret,    \* what the caller got: [kind, i]
   last    \* action record of the latest step (output only; hidden by VIEW)
 
@@ -63,26 +88,44 @@ IsError(r) == r.kind \notin {"nil", "raised", "none", "gone"}
 Unnoticed == fail > 0 /\ Out(fail) \in {"pnil", "exit"}
 Noticed   == FixNilRecover \/ ~Unnoticed
 
+(* the transaction was ended behind Transact's back *)
+Dead == fin # <<>> /\ fin[1].by # "transact"
+DeadBefore(i) == Dead /\ fin[1].at < i
+Need(i) == IF DeadBefore(i) THEN 0 ELSE cfg.steps[i].ex   \* statements that reach the database
+
 Committing  == \/ pc = "run" /\ cur = NSteps
                \/ pc = "failed" /\ ~Noticed
 RollingBack == pc = "failed" /\ Noticed
+
+(* inside step cur, statements done: the step / the cancelled context ends the transaction *)
+StepFinishes(op) == pc = "in" /\ ~Dead /\ nex = Need(cur) /\ cfg.steps[cur].fin = op
+CtxRollsBack     == pc = "in" /\ ~Dead /\ nex = Need(cur) /\ cfg.steps[cur].fin = "none"
+                    /\ cfg.cancel = cur
+Fin(op, ok, by, at) == [op |-> op, ok |-> ok, by |-> by, at |-> at]
 
 (* a panic with a nil value has no value to describe: an error saying so, or  *)
 (* any error that is not someone else's                                       *)
 PanicNilErrors(i) == {[kind |-> "panic", i |-> i], [kind |-> "other", i |-> 0]}
 
 (* what the caller may get once the transaction is finished *)
+FailRet(r) ==
+  CASE Out(fail) = "err"   -> r = [kind |-> "step", i |-> fail]
+    [] Out(fail) = "panic" -> r = [kind |-> "panic", i |-> fail]
+    [] Out(fail) = "pnil"  -> r \in PanicNilErrors(fail)
+    [] OTHER               -> FALSE               \* exit: nobody to return to
 RetAfterFinish(r) ==
   IF fin[1].op = "commit"
   THEN IF fin[1].ok THEN r = Nil ELSE IsError(r)     \* which error: left open
-  ELSE CASE Out(fail) = "err"   -> r = [kind |-> "step", i |-> fail]
-         [] Out(fail) = "panic" -> r = [kind |-> "panic", i |-> fail]
-         [] Out(fail) = "pnil"  -> r \in PanicNilErrors(fail)
-         [] OTHER               -> FALSE               \* exit: nobody to return to
+  ELSE FailRet(r)
+(* the transaction is dead when Transact comes to finish it: nothing reaches the database *)
+RetOnDead(r) ==
+  IF pc = "failed" /\ Noticed THEN FailRet(r)
+  ELSE IF TxDoneIsError THEN IsError(r) ELSE r = Nil  \* Transact's commit did not succeed
 
 Do(a) ==
   CASE a.ev = "begin" ->
          /\ pc = "start" /\ cfg.n > 0 /\ a.ok = cfg.begin
+         /\ cfg.cancel # 0                      \* a cancelled context never reaches the database
          /\ begun' = Append(begun, a.ok)
          /\ pc' = IF a.ok THEN "run" ELSE "nobegin"
          /\ UNCHANGED <<cfg, cur, nex, fail, ran, execs, fin, ret>>
@@ -91,32 +134,45 @@ Do(a) ==
          /\ pc' = "in" /\ cur' = a.i /\ nex' = 0 /\ ran' = Append(ran, a.i)
          /\ UNCHANGED <<cfg, fail, begun, execs, fin, ret>>
     [] a.ev = "exec" ->
-         /\ pc = "in" /\ a.i = cur /\ nex < cfg.steps[cur].ex
+         /\ pc = "in" /\ a.i = cur /\ nex < Need(cur) /\ ~Dead
          /\ a.tx = TRUE                          \* on the connection that holds the transaction
          /\ nex' = nex + 1 /\ execs' = Append(execs, a.i)
          /\ UNCHANGED <<cfg, pc, cur, fail, begun, ran, fin, ret>>
     [] a.ev = "end" ->
-         /\ pc = "in" /\ a.i = cur /\ a.out = Out(cur) /\ nex = cfg.steps[cur].ex
+         /\ pc = "in" /\ a.i = cur /\ a.out = Out(cur) /\ nex = Need(cur)
+         /\ (cfg.steps[cur].fin # "none" \/ cfg.cancel = cur) => Dead
          /\ IF a.out = "ok" THEN pc' = "run" /\ fail' = fail
                             ELSE pc' = "failed" /\ fail' = cur
          /\ UNCHANGED <<cfg, cur, nex, begun, ran, execs, fin, ret>>
     [] a.ev = "commit" ->
-         /\ Committing /\ a.ok = cfg.commit
-         /\ fin' = Append(fin, [op |-> "commit", ok |-> a.ok]) /\ pc' = "finished"
+         /\ a.ok = cfg.commit
+         /\ \/ /\ Committing /\ ~Dead
+               /\ fin' = Append(fin, Fin("commit", a.ok, "transact", 0)) /\ pc' = "finished"
+            \/ /\ StepFinishes("commit")
+               /\ fin' = Append(fin, Fin("commit", a.ok, "step", cur)) /\ pc' = pc
          /\ UNCHANGED <<cfg, cur, nex, fail, begun, ran, execs, ret>>
     [] a.ev = "rollback" ->
-         /\ RollingBack /\ a.ok = cfg.rollback
-         /\ fin' = Append(fin, [op |-> "rollback", ok |-> a.ok]) /\ pc' = "finished"
+         /\ a.ok = cfg.rollback
+         /\ \/ /\ RollingBack /\ ~Dead
+               /\ fin' = Append(fin, Fin("rollback", a.ok, "transact", 0)) /\ pc' = "finished"
+            \/ /\ StepFinishes("rollback")
+               /\ fin' = Append(fin, Fin("rollback", a.ok, "step", cur)) /\ pc' = pc
+            \/ /\ CtxRollsBack
+               /\ fin' = Append(fin, Fin("rollback", a.ok, "ctx", cur)) /\ pc' = pc
          /\ UNCHANGED <<cfg, cur, nex, fail, begun, ran, execs, ret>>
     [] a.ev = "ret" ->
-         /\ CASE pc = "start"    -> cfg.n = 0 /\ a.r.kind # "raised"   \* value left open
+         /\ CASE pc = "start"    -> IF cfg.n = 0 THEN a.r.kind # "raised"   \* value left open
+                                    ELSE cfg.cancel = 0 /\ IsError(a.r)   \* begin refused
               [] pc = "nobegin"  -> IsError(a.r)                        \* which error: left open
               [] pc = "finished" -> RetAfterFinish(a.r)
+              [] pc = "run"      -> cur = NSteps /\ Dead /\ RetOnDead(a.r)
+              [] pc = "failed"   -> Dead /\ RetOnDead(a.r)
               [] OTHER           -> FALSE
          /\ ret' = a.r /\ pc' = "done"
          /\ UNCHANGED <<cfg, cur, nex, fail, begun, ran, execs, fin>>
     [] a.ev = "gone" ->
-         /\ pc = "finished" /\ fail > 0 /\ Out(fail) = "exit"
+         /\ pc = "finished" \/ (pc = "failed" /\ Dead)
+         /\ fail > 0 /\ Out(fail) = "exit"
          /\ ret' = Gone /\ pc' = "done"
          /\ UNCHANGED <<cfg, cur, nex, fail, begun, ran, execs, fin>>
     [] OTHER -> FALSE
@@ -130,11 +186,13 @@ InitWith(c) ==
 
 ---------------------------------------------------------------------------
 (* Bounded instance for exhaustive checking *)
-CONSTANTS MaxArgs, MaxSteps, MaxEx, Outs
+CONSTANTS MaxArgs, MaxSteps, MaxEx, Outs, Fins, CancelOn
 
-StepRecs == [out : Outs, ex : 0..MaxEx]
+StepRecs == [out : Outs, ex : 0..MaxEx, fin : Fins]
 StepLists == UNION {[1..m -> StepRecs] : m \in 0..MaxSteps}
-MkCfg(n, s, b, c, r) == [n |-> n, steps |-> s, begin |-> b, commit |-> c, rollback |-> r]
+MkCfg(n, s, b, c, r, k) ==
+  [n |-> n, steps |-> s, begin |-> b, commit |-> c, rollback |-> r, cancel |-> k]
+CancelPts(m) == IF CancelOn THEN -1..m ELSE {-1}
 
 RetVals ==      [kind : {"nil", "begin", "commit", "rollback", "other", "raised"}, i : {0}]
            \cup [kind : {"step", "panic"}, i : 1..MaxSteps]
@@ -147,8 +205,9 @@ Acts ==
   \cup [ev : {"gone"}]
 
 Init == \E n \in 0..MaxArgs, s \in StepLists, b, c, r \in BOOLEAN :
+          \E k \in CancelPts(Len(s)) :
           /\ n = 0 => s = <<>>
-          /\ InitWith(MkCfg(n, s, b, c, r))
+          /\ InitWith(MkCfg(n, s, b, c, r, k))
 Next == \E a \in Acts : Step(a)
 Spec == Init /\ [][Next]_allvars
 
@@ -161,17 +220,20 @@ TypeOK ==
   /\ cur \in 0..NSteps /\ fail \in 0..NSteps /\ nex \in Nat
   /\ Len(begun) <= 1 /\ Len(fin) <= 1
 
-(* finished exactly once: never twice; once the caller has its answer (or   *)
-(* its goroutine is gone) a transaction that was begun has been finished,   *)
-(* and nothing is finished that was not begun                               *)
+(* finished exactly once: never twice - whoever finished it; once the       *)
+(* caller has its answer (or its goroutine is gone) a transaction that was  *)
+(* begun has been finished, and nothing is finished that was not begun      *)
 FinishedOnce ==
   /\ Len(fin) <= 1
   /\ (pc = "done" /\ Began) => Len(fin) = 1
   /\ ~Began => fin = <<>>
 
 (* commit iff every step returned nil without panicking, else rollback *)
+(* (what Transact itself asks the database for; on a dead transaction nothing  *)
+(* it asks for arrives)                                                       *)
 CommitIffAllOk ==
-  fin # <<>> => /\ fin[1].op = "commit"   <=> (fail = 0 /\ ran = [i \in 1..NSteps |-> i])
+  (fin # <<>> /\ fin[1].by = "transact") =>
+                /\ fin[1].op = "commit"   <=> (fail = 0 /\ ran = [i \in 1..NSteps |-> i])
                 /\ fin[1].op = "rollback" <=> fail > 0
 
 (* steps run in order, inside the transaction, and none after the first failure *)
@@ -186,7 +248,7 @@ NoBeginForEmpty == (cfg.n = 0 => begun = <<>>) /\ Len(begun) <= 1
 (* the caller's answer *)
 RetRight ==
   (pc = "done" /\ ret # Gone) =>
-     /\ cfg.n > 0 => (ret = Nil <=> fin = <<[op |-> "commit", ok |-> TRUE]>>)
+     /\ cfg.n > 0 => (ret = Nil <=> fin = <<Fin("commit", TRUE, "transact", 0)>>)
      /\ ret.kind # "raised"
      /\ (fail > 0 /\ Out(fail) = "err")    => ret = [kind |-> "step", i |-> fail]
      /\ (fail > 0 /\ Out(fail) = "panic") => ret = [kind |-> "panic", i |-> fail]
@@ -195,14 +257,16 @@ GoneOnlyByExit == ret = Gone => fail > 0 /\ Out(fail) = "exit"
 
 (* action properties, read off the action record of each step *)
 StepsOnlyInOpenTx ==
-  [][LET a == last' IN a.ev \in {"step", "exec"} => Began /\ fin = <<>> /\ fail = 0]_allvars
+  [][LET a == last' IN
+       /\ a.ev = "step" => Began /\ fail = 0 /\ (fin = <<>> \/ Dead)
+       /\ a.ev = "exec" => Began /\ fail = 0 /\ fin = <<>>]_allvars
 ExecInsideTx ==
   [][LET a == last' IN a.ev = "exec" => a.tx]_allvars
 FinishGuard ==
   [][LET a == last' IN
        /\ a.ev \in {"commit", "rollback"} => Began /\ fin = <<>>
-       /\ a.ev = "commit"   => AllOk
-       /\ a.ev = "rollback" => fail > 0]_allvars
+       /\ (a.ev = "commit"   /\ fin'[1].by = "transact") => AllOk
+       /\ (a.ev = "rollback" /\ fin'[1].by = "transact") => fail > 0]_allvars
 NothingAfterAnswer ==
   [][pc = "done" => UNCHANGED vars]_allvars
 
